@@ -63,10 +63,17 @@ class MFramer(object):
             fr = self.frames[n]
             if not fr.next:
                 fr.next = self.order[i + 1] if i + 1 < len(self.order) else None
+        # A frame is attached to its over frame when the first frame of its own subtree is reached in declaration order
+        # (each frame resolves every still unresolved link on its way up to the top).  With every over frame declared
+        # before its unders this is plain declaration order; with forward references ('frame b in a' before 'frame a') a
+        # child whose descendant is declared early comes first.  The primary child is the first attached one.
         for n in self.order:
-            fr = self.frames[n]
-            if fr.over:
-                self.frames[fr.over].unders.append(n)
+            cur = self.frames[n]
+            while cur.over:
+                parent = self.frames[cur.over]
+                if cur.name not in parent.unders:
+                    parent.unders.append(cur.name)
+                cur = parent
         for f in ast["frames"]:
             if f.get("under"):                   # primary child override
                 u = self.frames[f["name"]].unders
